@@ -114,7 +114,7 @@ type Client struct {
 	// locks processing of the received clock updates (mutation queue)
 	lockQueue sync.Mutex
 	// locks calling the server
-	callLock sync.Mutex
+	callLock simhook.Mutex
 	rpc      atomic.Pointer[rpc2.Client]
 	// schema of the network machine
 	schema am.Schema
